@@ -446,6 +446,8 @@ struct Extractor {
       CFG::BuildOptions BO;
       std::unique_ptr<CFG> G = CFG::buildCFG(FD, const_cast<Stmt *>(Body), &Ctx, BO);
       if (G) {
+        std::map<const DeclStmt *, const DeclStmt *> Synth;
+        for (auto I = G->synthetic_stmt_begin(), E2 = G->synthetic_stmt_end(); I != E2; ++I) Synth[I->first] = I->second;
         J.attributeObject("cfg", [&] {
           J.attribute("entry", (int64_t)G->getEntry().getBlockID());
           J.attribute("exit", (int64_t)G->getExit().getBlockID());
@@ -456,7 +458,15 @@ struct Extractor {
                 J.attributeArray("elems", [&] {
                   for (const CFGElement &El : *B)
                     if (auto CS = El.getAs<CFGStmt>()) {
-                      int Id = idOf(CS->getStmt(), St);
+                      const Stmt *ES = CS->getStmt();
+                      int Id = idOf(ES, St);
+                      if (Id < 0) {
+                        // clang splits `int a, b = 0 ;` into synthetic single-declarator DeclStmts: map back to the source statement
+                        if (auto *DS = dyn_cast<DeclStmt>(ES)) {
+                          auto It = Synth.find(DS);
+                          if (It != Synth.end()) Id = idOf(It->second, St);
+                        }
+                      }
                       if (Id >= 0) J.value(Id);
                     }
                 });
